@@ -86,6 +86,8 @@ def cases(tier, rnd):
         cs.append("fef0%04x" % lf + bytes(rnd.randrange(256) for _ in range(rnd.randrange(0, 40))).hex())
     for n in (255, 256, 257, 511, 512, 513, 1023, 1024, 1025, 2047, 2048, 2049, 3072, 4095, 4096, 4097, 8192, 65535, 65536):     # sizes around powers of two
         cs.append(bytes(rnd.randrange(256) for _ in range(n)).hex())
+    for base in FRAMES[:4]:          # a real frame with each aligned four-byte field blanked in turn (an unset timestamp, session, id ...)
+        for off in range(0, len(base) - 8, 8): cs.append(base[:off] + "00000000" + base[off + 8:]); cs.append(base[:off] + "ffffffff" + base[off + 8:])
     cs += ["f", "fe f0", " fef0", "fef0 ", "0x", "fe\n", "g0", "שש", "fe-0", "+f", "f" * 4097, "0" * 8191, "１２", "1_0", "fe\x00",
            "\ufb00", "0\ufb000", "fef0\ufb00", "\ufb00\ufb00", "\ufb03a", "\u212a0", "\u00df0", "a\u0300", "\u0661\u0662", "\uff41\uff42"]      # characters that case-fold or normalise into hex digits
     # the way hex dumps are written elsewhere: separators between, before and after whole byte pairs (even and odd total lengths)
